@@ -18,12 +18,12 @@
   Part 4  `…_adds_same_…`     : what the results add to the record is a function of the decoded
                                value, hence the same after regeneration
 
-  Hypotheses that are not class invariants (all decidable, evaluated on every generated case):
-    * `Proto.textOk` — `location_from_string(str(loc)) = loc` for a protocluster's two locations
-      (text layer of C04/C10; `protocluster_json_roundtrip` and its dependants are stated under it
-      through `Proto.valid`)
-    * `ModRules.accepts` — C14's contract that every built module can be re-added component by
-      component (part of `Module.valid`)
+  The text layer inside the JSON (`str(location)` / `location_from_string`, `str(int)` / `int(text)`)
+  is covered: `ASV.C04.string_roundtrip` (proved for all locations with ≥ 1 part) is used for the
+  protocluster and TTA locations, `strInt_intStr` for the numeric qualifiers.
+  The one hypothesis that is not established here: `ModRules.accepts` — C14's contract that every
+  module produced by `build_modules_for_cds`/`combine_modules` can be re-added component by
+  component (part of `Module.valid`; the correspondence runs the real re-adding on built modules).
 -/
 import ASV.Proofs.ResultsGuards
 namespace ASV.C11
@@ -116,10 +116,17 @@ theorem hmmer_regenerate_same_thresholds (ctx : Ctx) (x : HmmerRes) (hv : x.vali
     cases x
     simp_all
 
+theorem detect_locsOk (rid : String) (gc t : Dec) (all : List Loc) (hl : TTA.locsOk all = true) :
+    TTA.locsOk (TTA.detect rid gc t all).codons = true := by
+  unfold TTA.detect
+  split
+  · rfl
+  · exact hl
+
 /-- TTA results as stored by `detect` under threshold `t` and re-read under the same threshold -/
-theorem tta_json_roundtrip (rid : String) (gc t : Dec) (all : List (Int × Int)) :
+theorem tta_json_roundtrip (rid : String) (gc t : Dec) (all : List Loc) (hl : TTA.locsOk all = true) :
     TTA.fromJson t (TTA.detect rid gc t all).toJson = .reuse (TTA.detect rid gc t all) := by
-  rw [TTA.fromJson_toJson_cases]
+  rw [TTA.fromJson_toJson_cases _ _ (detect_locsOk rid gc t all hl)]
   unfold TTA.detect
   cases h : Dec.lt gc t with
   | true =>
@@ -296,26 +303,26 @@ theorem hmmer_regenerate_lenient_discards (ctx : Ctx) (maxE minS : Dec) (j : J) 
     Either the module is told to rerun (exactly when the old run skipped the record for low GC and
     the new threshold no longer does), or the regenerated results are exactly what a fresh run under
     `new` stores. -/
-theorem tta_regenerate_sound (rid : String) (gc old new : Dec) (all : List (Int × Int)) :
+theorem tta_regenerate_sound (rid : String) (gc old new : Dec) (all : List Loc) (hl : TTA.locsOk all = true) :
     TTA.fromJson new (TTA.detect rid gc old all).toJson =
       if Dec.lt gc old && Dec.le new gc then .discard else .reuse (TTA.detect rid gc new all) := by
-  rw [TTA.fromJson_toJson_cases]
+  rw [TTA.fromJson_toJson_cases _ _ (detect_locsOk rid gc old all hl)]
   unfold TTA.detect
   cases ho : Dec.lt gc old <;> cases hn : Dec.le new gc <;>
     simp [Dec.lt_eq_not_le gc new, hn, ho]
 
 /-- the reference of the spec: after the decision (reuse or rerun) the record carries the codons of
     `ttaReference` -/
-theorem tta_history_step (rid : String) (gc old new : Dec) (all : List (Int × Int)) :
+theorem tta_history_step (rid : String) (gc old new : Dec) (all : List Loc) (hl : TTA.locsOk all = true) :
     (match TTA.fromJson new (TTA.detect rid gc old all).toJson with
      | .reuse y => y.codons
      | _ => (TTA.detect rid gc new all).codons) = ttaReference gc new all := by
-  rw [tta_regenerate_sound]
+  rw [tta_regenerate_sound rid gc old new all hl]
   cases ho : Dec.lt gc old <;> cases hn : Dec.le new gc <;>
     simp [TTA.detect, ttaReference, Dec.lt_eq_not_le gc new, hn]
 
 theorem tta_schema_guard (opt : Dec) (kv : List (String × J)) (sv : J)
-    (hs : lookup "schema_version" kv = some sv) (h : isIntLit (some sv) 2 = false) :
+    (hs : lookup "schema_version" kv = some sv) (h : isIntLit (some sv) 3 = false) :
     TTA.fromJson opt (.obj kv) = .discard := by
   simp [TTA.fromJson, TTA.schemaVersion, hs, h]
 
@@ -378,10 +385,10 @@ theorem hmmDetection_adds_same_protoclusters (ctx : Ctx) (x : HmmDet) (hv : x.va
   refine ⟨_, HmmDet.fromJson_toJson ctx x hv, ?_⟩
   simp [RuleRes.protoclusters, RuleRes.detach, List.map_map, Function.comp_def]
 
-theorem tta_adds_same_features (rid : String) (gc t : Dec) (all : List (Int × Int)) :
+theorem tta_adds_same_features (rid : String) (gc t : Dec) (all : List Loc) (hl : TTA.locsOk all = true) :
     ∃ y, TTA.fromJson t (TTA.detect rid gc t all).toJson = .reuse y
       ∧ y.features = (TTA.detect rid gc t all).features ∧ y.addToRecord rid = (TTA.detect rid gc t all).addToRecord rid :=
-  ⟨_, tta_json_roundtrip rid gc t all, rfl, rfl⟩
+  ⟨_, tta_json_roundtrip rid gc t all hl, rfl, rfl⟩
 
 /-! ### non-vacuity: the invariants hold on non-trivial concrete objects -/
 
@@ -425,8 +432,12 @@ example : exHmmer.valid exCtx = true := by decide +kernel
 example : (exHmmer.refilter ⟨1, -1⟩ ⟨0, 0⟩) = .refuse .value := by decide +kernel
 
 -- TTA: low-GC record skipped under 0.65, codons wanted under 0.5 → rerun; kept under 0.65
-example : TTA.fromJson ⟨5, -1⟩ (TTA.detect "r" ⟨6, -1⟩ ⟨65, -2⟩ [(3, 1)]).toJson = .discard := by decide +kernel
-example : TTA.fromJson ⟨7, -1⟩ (TTA.detect "r" ⟨6, -1⟩ ⟨5, -1⟩ [(3, 1)]).toJson
-    = .reuse ⟨"r", ⟨6, -1⟩, ⟨7, -1⟩, []⟩ := by decide +kernel
+def exCodons : List Loc := [.simple ⟨12, 15, .fwd⟩, .compound [⟨28, 30, .rev⟩, ⟨40, 41, .rev⟩]]
+example : TTA.locsOk exCodons = true := by decide
+example : TTA.fromJson ⟨5, -1⟩ (TTA.detect "r" ⟨6, -1⟩ ⟨65, -2⟩ exCodons).toJson = .discard := by
+  rw [tta_regenerate_sound _ _ _ _ _ (by decide)]; decide +kernel
+example : TTA.fromJson ⟨7, -1⟩ (TTA.detect "r" ⟨6, -1⟩ ⟨5, -1⟩ exCodons).toJson
+    = .reuse ⟨"r", ⟨6, -1⟩, ⟨7, -1⟩, []⟩ := by
+  rw [tta_regenerate_sound _ _ _ _ _ (by decide)]; decide +kernel
 
 end ASV.C11
